@@ -32,6 +32,9 @@ def configs(tier):
         out.append({"n": n, "grant": "refresh", "has_cb": True, "outcomes": ["success"], "stream": n == 3, "clock": "fraction"})
         out.append({"n": n, "grant": "refresh", "has_cb": True, "outcomes": ["success"], "stream": n == 3, "leeway": 300})
         out.append({"n": n, "grant": "client_credentials", "has_cb": n == 2, "outcomes": ["success"], "stream": False, "leeway": 3600})
+        out.append({"n": n, "grant": "refresh", "has_cb": True, "outcomes": ["success"], "stream": n == 3, "cb_kind": "sync-returning-awaitable"})
+        out.append({"n": n, "grant": "client_credentials", "has_cb": True, "outcomes": ["success"], "stream": False, "cb_kind": "sync-returning-awaitable"})
+        out.append({"n": n, "grant": "client_credentials", "has_cb": True, "outcomes": ["success"], "stream": n == 3, "cc_via_fetch": True})
     return out
 
 
